@@ -104,9 +104,13 @@ func SpecReplyInt(reply interface{}) int { panic("abstract spec function") }
 //@   ghost var lastA4 dyn
 //@   ghost var lastReply dyn
 //@   requires nonnil: e != nil && e.cli != nil
-//@   modifies reqs, lastCmd, lastNArgs, lastA1, lastA2, lastA3, lastA4, lastReply, nDel, nPexpire
+//@   modifies reqs, lastCmd, lastNArgs, lastA1, lastA2, lastA3, lastA4, lastReply, nDel, nPexpire, campaignFailed
 //@   ensures one_atomic_request: reqs == old(reqs) + 1 && lastCmd == "eval"
 //@   ensures success_only_if_granted: result == nil ==> SpecReplyInt(lastReply) == 1
+//   campaignFailed  1 when the lease request itself failed (as opposed to being answered "not yours")
+//@   ghost var campaignFailed mathint = 0
+//@   set campaignFailed = ite(result1 == nil, 0, 1) after call Campaign
+//@   ensures a_refusal_is_reported_as_the_sentinel_the_leader_loop_tests_for: campaignFailed == 0 && result != nil ==> result == ErrNotLeader
 
 //@ func redisElection.Resign
 //@   arith int
